@@ -8,7 +8,7 @@
     there: both results optimal, equal difference and bin count (PARTIAL; equal sums tested).  wf_*: every reported sum is the total
     value of the items reported in that bin (from is_partition / is_packing / is_cover of C01/C03/C05).
     Statements only; proofs in Proofs/EraseProofs.v and the per-algorithm files. *)
-From Prtpy Require Import Base.Prelude Model.Binner Model.Objectives Model.Greedy Model.Packing Model.Covering Model.KK Model.CG Model.DP Model.SNP Model.CBLDM Model.BinCompletion Model.Multifit Model.Output Spec.Partition Proofs.EraseProofs Proofs.MultifitProofs Proofs.CKKOptimal Model.Balanced Proofs.BalancedProofs.
+From Prtpy Require Import Base.Prelude Model.Binner Model.Objectives Model.Greedy Model.Packing Model.Covering Model.KK Model.CG Model.DP Model.SNP Model.CBLDM Model.BinCompletion Model.Multifit Model.Output Spec.Partition Proofs.EraseProofs Proofs.MultifitProofs Proofs.CKKOptimal Model.Balanced Proofs.BalancedProofs Oracle.Checkers Proofs.CheckersSpec.
 
 (** C06 - Reported sums and derived outputs always describe the returned bins. Model/Output.v models outputtypes.py and the two adaptors: an output type chooses the bins-manager (keeps o) and extracts the answer. C06_X: for every sums-family output type o the cheap run (sums-only manager) returns derive o (sums of the FULL run): the documented function of the sums of the partition the contents manager returns - because the sums-only run makes exactly the same decisions (X_erase). Proved for greedy, round-robin, multifit (erase), KK, complete greedy (every objective, switch vector and limit), DP, SNP, RNP, the four fit packers, bin completion, the three covers, CBLDM (always keeps contents), and complete KK for every number of bins (items with equal names must have equal values: names_ok; since the repair that de-duplicates the children of a search node by their sums the two managers explore the same tree: ckk_erase, ckk_generator_erase). wf_*: every reported sum is the total value of the items reported in that bin (from is_partition / is_packing / is_cover of C01/C03/C05). Statements only; proofs in Proofs/EraseProofs.v and the per-algorithm files. *) From Prtpy Require Import Base.Prelude Model.Binner Model.Objectives Model.Greedy Model.Packing Model.Covering Model.KK Model.CG Model.DP Model.SNP Model.CBLDM Model.BinCompletion Model.Multifit Model.Output Spec.Partition Proofs.EraseProofs Proofs.MultifitProofs Proofs.CKKOptimal Model.Balanced Proofs.BalancedProofs. (** if the sums-only run is the erasure of the full run, every cheap output is the documented function of the full run's sums *)
 Theorem C06_schema :
@@ -256,4 +256,10 @@ Theorem C06_ckk_sums_manager_optimal :
   Opt MinDiff k (map valueof items) (value MinDiff (sums b) false).
 Proof. exact @ckk_sums_optimal. Qed.
 Print Assumptions C06_ckk_sums_manager_optimal.
+
+(** the boolean checker that judges 'every reported sum is the total of the reported items' on the IMPLEMENTATION's output decides exactly wf *)
+Theorem C06_checker_wf :
+  forall b : bins citem, wf_b b = true <-> wf cval b.
+Proof. exact @wf_b_spec. Qed.
+Print Assumptions C06_checker_wf.
 
